@@ -45,3 +45,6 @@ pub fn env_u64(name: &str, default: u64) -> u64 {
 pub fn seed() -> u64 {
     env_u64("VERIF_SEED", 1)
 }
+
+pub mod base;
+pub mod scope_ops;
